@@ -2,8 +2,10 @@ package otap
 
 import (
 	"fmt"
+	"strings"
 	"testing"
 
+	"go.opentelemetry.io/collector/pdata/plog"
 	"go.opentelemetry.io/collector/pdata/ptrace"
 )
 
@@ -36,8 +38,40 @@ func nulResetHistory() *StreamCase {
 	return c
 }
 
-// TestKnownC04 probes the listed known finding with its specific history.
+// nulSharedWriterHistory is the specific history of the known finding
+// shared-writer-trailing-nul (D12 (a)): the RESOURCE_ATTRS records of traces
+// and logs come from different builders but go through ONE IPC writer (same
+// fields, same metadata). The traces batch transmits the key dictionary
+// ["k\x00"], the logs batch brings the dictionary ["k"]: same length, equal
+// up to trailing NULs for array.ApproxEqual, so the writer does not transmit
+// it and the log's resource attribute decodes under the key "k\x00".
+func nulSharedWriterHistory() *StreamCase {
+	c := &StreamCase{}
+	td := ptrace.NewTraces()
+	rs := td.ResourceSpans().AppendEmpty()
+	rs.Resource().Attributes().PutStr("k\x00", "v")
+	rs.ScopeSpans().AppendEmpty().Spans().AppendEmpty().SetName("s")
+	c.Batches = append(c.Batches, TracesBatch(td))
+	ld := plog.NewLogs()
+	rl := ld.ResourceLogs().AppendEmpty()
+	rl.Resource().Attributes().PutStr("k", "v")
+	rl.ScopeLogs().AppendEmpty().LogRecords().AppendEmpty().Body().SetStr("b")
+	c.Batches = append(c.Batches, LogsBatch(ld))
+	return c
+}
+
+// TestKnownC04 probes the listed known findings with their specific histories.
 func TestKnownC04(t *testing.T) {
+	{
+		res, err := RunStream(nulSharedWriterHistory(), RunConfig{Decode: true, StopAtDecodeFail: true})
+		if err != nil {
+			fmt.Printf("KNOWN-NOVERDICT key=shared-writer-trailing-nul %v\n", err)
+		} else if msg := roundTripVerdict(res, ""); msg != "" && strings.Contains(msg, "batch 1 (logs)") {
+			fmt.Printf("KNOWN-REPRODUCED key=shared-writer-trailing-nul: %s\n", kitTrunc(msg))
+		} else {
+			fmt.Printf("KNOWN-GONE key=shared-writer-trailing-nul (verdict %q)\n", kitTrunc(msg))
+		}
+	}
 	c := nulResetHistory()
 	res, err := RunStream(c, RunConfig{Decode: true, StopAtDecodeFail: true})
 	if err != nil {
